@@ -69,15 +69,13 @@ PROPS["C13"] = {
 
 PROPS["C03"] = {
     "level": "model_checking",
-    "functions": ["aquatic_common::CanonicalSocketAddr::{new,get,get_ipv4,get_ipv6_mapped,is_ipv4}", "aquatic_http::workers::socket::request::{parse_request,parse_forwarded_header}", "aquatic_ws::common::IpVersion::canonical_from_ip"],
+    "functions": ["aquatic_common::CanonicalSocketAddr::{new,get,get_ipv4,get_ipv6_mapped,is_ipv4}", "aquatic_ws::common::IpVersion::canonical_from_ip"],
     "bounds": "all 2^48 IPv4 socket addresses; all IPv6 socket addresses (16 octets, port, flowinfo, scope id) - full width, no size bound",
-    "outside": "socket syscalls (recv_from / peer_addr) that produce the SocketAddr; glommio connection.rs glue (which of TCP peer / header value is used is decided there); header values other than 1-2 dotted IPv4 addresses with one-digit octets (IPv6 text, longer lists); 'in-request address fields never influence the key' is asserted in C01/C07 (announcer stored under (ip argument, request port))",
+    "outside": "socket syscalls (recv_from / peer_addr) that produce the SocketAddr; glommio connection.rs glue (which of TCP peer / header value is used is decided there); the HTTP reverse-proxy header parser (parse_forwarded_header: harness c03_forwarded_* over the real parse_request exists in harness/kani-http/src/c03.rs but did not reach a verdict within 25 min when measured, so it is NOT registered and nothing is claimed); 'in-request address fields never influence the key' is asserted in C01/C07 (announcer stored under (ip argument, request port))",
     "models": [],
     "assumptions": ["Kani models the dev profile (overflow checks on)"],
     "harnesses": [
         H(KC, "c03::c03_canonical_v4_identity", "IPv4 source stored unchanged; its v4-mapped v6 form canonicalises to the same peer", "all IPv4 addr+port", ["CanonicalSocketAddr::new", "get_ipv6_mapped"]),
-        H(KH, "c03::c03_forwarded_1_1", "HTTP behind a reverse proxy: real parse_request -> parse_forwarded_header on a request with two occurrences of a header whose name may or may not be the configured one: peer address == last address of the LAST occurrence of the configured header; refused when the header is absent", "two header lines 'X-Forwarded-Fo?: D.D.D.D', symbolic digits and names", ["aquatic_http::workers::socket::request::{parse_request,parse_forwarded_header}", "httparse::Request::parse", "std IpAddr parser"], cost=300, tier="thorough"),
-        H(KH, "c03::c03_forwarded_2_2", "as above, each value a list of two addresses (', ' and ',' separators)", "two header lines with two addresses each", ["parse_forwarded_header"], cost=400, tier="thorough"),
         H(KW8, "c03::c03_ws_canonical_family", "WebTorrent: IpVersion::canonical_from_ip - IPv4-mapped IPv6 source is family V4, other IPv6 V6, IPv4 V4", "all addresses, full width", ["aquatic_ws::common::IpVersion::canonical_from_ip"], cost=20),
         H(KC, "c03::c03_canonical_v6_total", "v6 source becomes v4 exactly when it is ::ffff:a.b.c.d, with embedded octets and port; otherwise unchanged", "all IPv6 addr+port+flow+scope", ["CanonicalSocketAddr::new"]),
     ],
@@ -148,7 +146,7 @@ PROPS["C15"] = {
     "functions": ["aquatic_ws_protocol::common::{serialize_20_bytes, TwentyByteVisitor::visit_str, deserialize_20_bytes}",
                   "serde derive(transparent) glue of InfoHash / PeerId / OfferId", "serde::de::value::StrDeserializer"],
     "bounds": "encode: identifiers whose bytes are all < 0x80, all >= 0x80, or 4 arbitrary + 16 fixed bytes (a fully mixed 20-byte identifier does not finish: symbolic write offsets); decode: strings of exactly 0, 1, 19, 20, 21, 22 chars, each char any of U+0000..U+FFFF (1-, 2- or 3-byte UTF-8, surrogates excluded)",
-    "outside": "the simd-json reader itself (runtime-dispatched SIMD kernels, not encodable): message round trips use serde_json's reader as a stand-in (same serde data model); outgoing messages (OutMessage) and message shapes other than the c15m_* ones; SDP text other than a short fixed string; strings of 2..18 or > 22 chars; chars above U+FFFF",
+    "outside": "whole-message JSON round-trips: the simd-json reader (runtime-dispatched SIMD kernels) is not encodable, and the stand-in harnesses c15m_* (real serde_json writer + serde_json reader, harness/kani-ws-proto/src/c15m.rs) did not reach a verdict within 10-20 min per message shape when measured, so they are NOT registered; strings of 2..18 or > 22 chars; chars above U+FFFF",
     "models": ["alloc::fmt::format -> empty String (error message text is not the subject)"],
     "assumptions": ["the JSON reader hands the visitor the decoded string via visit_str (simd-json and serde_json both do for strings)"],
     "harnesses": [
@@ -158,25 +156,6 @@ PROPS["C15"] = {
     ] + [
         H(KWP, "c15::c15_id_decode_n%d" % n, "Ok(v) <=> exactly 20 chars all <= U+00FF and v[i]==char i", "%d arbitrary chars" % n, ["TwentyByteVisitor::visit_str"], cost=60)
         for n in (0, 1, 19, 20, 21, 22)
-    ] + [
-        H(KWP, "c15m::c15m_%s" % n, "message round trip: real serde_json::to_string (what to_ws_message calls) of a message of concrete SHAPE (" + d + ") with symbolic leaf values, read back through the derive-generated deserialisers "
-          "(untagged enums, action discrimination, ScrapeRequestInfoHashes, TwentyByteVisitor) by serde_json::from_str: equal to the original", d, ["InMessage Serialize/Deserialize derives", "serde_json::{to_string,from_str}", "TwentyByteVisitor"], cost=c, tier=t)
-        for n, d, c, t in (
-            ("scrape_none", "scrape without hashes", 60, "thorough"),
-            ("scrape_single", "scrape with a single hash (string form)", 100, "thorough"),
-            ("scrape_multi1", "scrape with a one-element hash array (must stay an array)", 100, "thorough"),
-            ("scrape_multi2", "scrape with two hashes", 150, "thorough"),
-            ("announce_plain", "announce, no offers/answer; left, event symbolic incl. absent", 300, "thorough"),
-            ("announce_offer", "announce with one offer", 400, "thorough"),
-            ("announce_answer", "announce with an answer", 400, "thorough"),
-            ("out_error_noaction", "OutMessage: error reply without action, info hash present or absent", 200, "thorough"),
-            ("out_error_announce", "OutMessage: error reply to an announce", 200, "thorough"),
-            ("out_error_scrape", "OutMessage: error reply to a scrape (must not decode as a scrape reply)", 200, "thorough"),
-            ("out_announce", "OutMessage: announce reply, symbolic counters < 1000", 300, "thorough"),
-            ("out_offer", "OutMessage: forwarded offer", 400, "thorough"),
-            ("out_answer", "OutMessage: forwarded answer", 400, "thorough"),
-            ("out_scrape_empty", "OutMessage: scrape reply without files", 100, "thorough"),
-        )
     ],
 }
 
@@ -197,8 +176,8 @@ PROPS["C14"] = {
     "level": "model_checking",
     "functions": ["aquatic_http_protocol::utils::{urlencode_20_bytes, urldecode_20_bytes}", "response::{AnnounceResponse,ScrapeResponse,FailureResponse}::write_bytes", "itoa::Buffer::format", "hex::{encode_to_slice,decode_to_slice}"],
     "bounds": "identifiers: all 2^160 values (encode) / strings of exactly 0,19,20,21 units, each unit a raw ASCII char, a 2-byte char U+0080..U+07FF, or %XY with arbitrary ASCII X,Y (decode); "
-              "replies: (n4,n6) in {(0,0),(2,0),(0,2),(1,1)} compact peers with fixed 1-, 2- and 4-digit counters, 0..1 scrape files, counter formatting for all values < 100000 (thorough), one failure text",
-    "outside": "query strings whose LAYOUT (keys, order, value lengths) is not one of the c14q_* layouts (fully symbolic bytes through memchr do not finish, DESIGN section 2); request write->parse round trip through itoa with symbolic lengths; `key=` values needing percent-decoding; httparse; counters >= 100000 (itoa digit extraction at full width stalls the bit-blaster); reply parse-back through serde_bencode; "
+              "tails: 19 fixed units + 3 arbitrary ASCII bytes (thorough); replies: (n4,n6) in {(0,0),(2,0),(0,2),(1,1)} compact peers with fixed 1-, 2- and 4-digit counters, 0..1 scrape files, counter formatting for all values < 100000 (thorough), one failure text",
+    "outside": "the query-string splitter (memchr over symbolic bytes does not finish; the concrete-layout / symbolic-value harnesses c14q_* in harness/kani-http-proto/src/c14q.rs did not reach a verdict within 25 min per layout when measured and are NOT registered) and request write->parse round trip; counters >= 100000 (itoa digit extraction at full width stalls the bit-blaster); reply parse-back through serde_bencode; "
                "'%'+non-ASCII look-alike hex digits (the code is lenient there; the property does not demand rejection)",
     "models": ["std::backtrace::Backtrace::capture -> disabled()", "alloc::fmt::format -> empty String"],
     "assumptions": ["reference bencode encoder in harness/kani-http-proto/src/bencode_ref.rs"],
@@ -210,8 +189,8 @@ PROPS["C14"] = {
         H(KHP, "c14::c14_urldecode_one_free_front", "19 fixed raw units + one arbitrary unit in front: Ok <=> the unit is well-formed, value == reference", "one arbitrary unit (ASCII | 2-byte char | %XY)", ["urldecode_20_bytes"], cost=120),
         H(KHP, "c14::c14_urldecode_one_free_back", "19 fixed raw units + one arbitrary unit at the end: Ok <=> the unit is well-formed, value == reference", "one arbitrary unit", ["urldecode_20_bytes"], cost=120),
     ] + [
-        H(KHP, "c14::c14_urldecode_tail_%d" % t, "19 fixed raw units + a tail of exactly %d arbitrary ASCII bytes (incl. '%%': truncated escapes, stray text): Ok <=> the tail is exactly one well-formed unit, value == reference; never panics" % t, "tail of %d arbitrary ASCII bytes" % t, ["urldecode_20_bytes"], cost=120)
-        for t in (1, 2, 3, 4)
+        H(KHP, "c14::c14_urldecode_tail_%d" % t, "19 fixed raw units + a tail of exactly %d arbitrary ASCII bytes (incl. '%%': truncated escapes, stray text): Ok <=> the tail is exactly one well-formed unit, value == reference; never panics" % t, "tail of %d arbitrary ASCII bytes" % t, ["urldecode_20_bytes"], tier="thorough", cost=700, timeout=3000)
+        for t in (3,)
     ] + [
         H(KHP, "c14::c14_urldecode_n19", "Ok(v) <=> exactly 20 well-formed units ...", "19 units (ASCII | %XY)", ["urldecode_20_bytes"], tier="thorough", cost=900, timeout=3000),
         H(KHP, "c14::c14_urldecode_n20", "Ok(v) <=> exactly 20 well-formed units ...", "20 units (ASCII | %XY)", ["urldecode_20_bytes"], tier="thorough", cost=1200, timeout=3600),
@@ -226,25 +205,6 @@ PROPS["C14"] = {
     ] + [
         H(KHP, "c14::c14_counter_format", "decimal digits of a reply counter == reference formatter", "all counters < 100000", ["AnnounceResponse::write_bytes", "itoa::Buffer::format"], tier="thorough", cost=600, timeout=1800),
         H(KHP, "c14::c14_failure_reply", "failure reply bytes == canonical bencode", "one text", ["FailureResponse::write_bytes"]),
-    ] + [
-        H(KHP, "c14q::c14q_%s" % n, "real query-string parser on a concrete LAYOUT (" + d + ") with symbolic VALUES (digits of every number, one %XY unit with arbitrary hex digits and one raw URL-safe char per identifier): "
-          "accepted, every field == the value the text spells (identifiers decoded exactly, optional fields absent iff not sent, unknown keys ignored)", d, ["AnnounceRequest::parse_query_string", "ScrapeRequest::parse_query_string", "Request::parse_http_get_path", "memchr (real SSE2 path; cpuid stubbed)"], cost=c, tier=t)
-        for n, d, c, t in (
-            ("announce_started", "writer order, all optional fields, event=started", 200, "thorough"),
-            ("announce_stopped", "writer order, event=stopped", 200, "thorough"),
-            ("announce_completed", "writer order, event=completed", 200, "thorough"),
-            ("announce_noevent", "writer order, no event", 200, "thorough"),
-            ("announce_path", "through Request::parse_http_get_path('/announce?...')", 200, "thorough"),
-            ("announce_reversed", "reversed key order, unknown key in the middle, no optional field", 200, "thorough"),
-            ("announce_missing_port", "mandatory field port missing -> rejected", 100, "thorough"),
-            ("announce_missing_uploaded", "mandatory field uploaded missing -> rejected", 100, "thorough"),
-            ("announce_missing_downloaded", "mandatory field downloaded missing -> rejected", 100, "thorough"),
-            ("announce_missing_left", "mandatory field left missing -> rejected", 100, "thorough"),
-            ("announce_port5", "5-digit port: accepted iff <= 65535", 200, "thorough"),
-            ("scrape_k1", "scrape, 1 hash", 100, "thorough"),
-            ("scrape_k2", "scrape, 2 hashes with an unknown key between, request order kept", 150, "thorough"),
-            ("scrape_path_k1", "through Request::parse_http_get_path('/scrape?...')", 100, "thorough"),
-        )
     ],
 }
 
